@@ -69,7 +69,8 @@ def w_pipeline(arg):
                       "after_status": after[0], "after_stdout": after[1][-400:], "first_difference": c02._first_diff(base[1], after[1]), "out": out[-1500:]}
             if att:
                 res["attributed"] += 1
-                detail.update({"attributed_rule": att["rule"], "step_before": att["before"], "step_after": att["after"], "text_diff": c02._text_diff(att["before"], att["after"])})
+                detail.update({"attributed_rule": att["rule"], "step_before": att["before"], "step_after": att["after"], "text_diff": c02._text_diff(att["before"], att["after"]),
+                               "final_status": after[0], "after_status": att["after_status"]})  # classifiers judge the attributed step, so its own status is recorded
                 if att["after_status"] == "exc:NameError":
                     detail["agrees_after_add_missing_imports"] = False  # inside the pipeline the import step did run
             if len(res["violations"]) < 40:
